@@ -389,8 +389,15 @@ pub fn exec_par(w: &mut World, st: &Step) -> bool {
     if w.oracles.fault_free {
         for h in &hist {
             if !h.ok {
+                // a discard that fails is C11's business too ("returns Ok for
+                // all arguments on a writable device")
+                let props: &[&'static str] = if matches!(h.kind, HKind::Discard) {
+                    &["C07", "C11"]
+                } else {
+                    &["C07"]
+                };
                 w.viol(
-                    &["C07"],
+                    props,
                     &format!("concurrent-op-failed/{}", err_class(&h.err)),
                     format!(
                         "{what}: client {} {} failed while other operations were in flight: {}",
